@@ -43,6 +43,14 @@ def func_as_expr(fn):
             env2 = dict(env)
             env2[st.targets[0].id] = norm.substitute(st.value, env)
             return block(rest, env2)
+        if isinstance(st, ast.Assign) and len(st.targets) == 1 and isinstance(st.targets[0], ast.Tuple) \
+                and all(isinstance(e_, ast.Name) for e_ in st.targets[0].elts) and isinstance(st.value, (ast.Name, ast.Attribute)):
+            # a, b = item   ->   a = item[0]; b = item[1]
+            env2 = dict(env)
+            src = norm.substitute(st.value, env)
+            for i_, e_ in enumerate(st.targets[0].elts):
+                env2[e_.id] = ast.Subscript(value=src, slice=ast.Constant(value=i_), ctx=ast.Load())
+            return block(rest, env2)
         if isinstance(st, ast.If):
             test = norm.substitute(st.test, env)
             b = block(list(st.body) + rest if not _terminates(st.body) else st.body, env)
